@@ -385,7 +385,7 @@ def wild_stream(run: Runner, prop: str, tier: str, seed: int, oracles=()):
     import gen_wild
     rng = core.rng_for(seed, prop + "-wild")
     s = core.Stream("S4-wild", "shadowing-heavy generated programs (a pool of four names reused for constants, symbols, labels, loop variables, macro and block parameters at every nesting level, defined before and after their uses; mostly unsuffixed operands; macros that expand to nothing, splice a block argument several times or apply other macros inside spliced blocks; .text below its .table; included file) through the real assembler with per-node trace and through the model: same writes block by block, labels in order, outcome class; per-node oracles on the accepted ones; non-trivial = distinct (outcome, constructs used)")
-    n = 500 if tier == "quick" else 12000
+    n = 1200 if tier == "quick" else 12000
     progs = corpus_programs() + [gen_wild.generate(rng, run.drv) for _ in range(n)]
     for pr, r, m in run.run(progs):
         s.cases += 1
